@@ -49,7 +49,7 @@ Init ==
   /\ genRank = 0
   /\ \E nff \in BOOLEAN :
        /\ pc = "list"
-       /\ cfg = [checks |-> Checks, base |-> <<0, 0, 0, 1>>, nofailfile |-> nff, failfile |-> "", expectFF |-> Files]
+       /\ cfg = [checks |-> Checks, base |-> <<0, 0, 0, 1>>, nofailfile |-> nff, failfile |-> "", expectFF |-> Files, deadline |-> FALSE]
   /\ ffq = <<>> /\ ff = "" /\ pend = "" /\ valid = 0 /\ invalid = 0 /\ seed = <<0, 0, 0, 1>> /\ cur = NoCur /\ flag = FALSE
   /\ e1 = NoErr /\ e2 = NoErr /\ buf = NoStream /\ best = NoStream /\ orig = NoStream /\ sErr = NoErr /\ cache = {}
   /\ shrinks = 0 /\ rep = NoRep /\ tbFailed = FALSE /\ tbFailNow = FALSE /\ viol = {}
